@@ -212,21 +212,48 @@ pub fn gen_lzma2(t: &mut Tape, max_total: u64, strict_order: bool) -> Lzma2Built
             .min(room.max(1));
             if max_total > 100_000 && room > 70_000 && t.below(8) == 0 {
                 // incompressible chunk: packed size close to the 64 KiB field limit
-                let n = t.range(58_000, 63_500);
+                // a third of them: exactly the largest packed size the field can express
+                // (65536 bytes, field 0xFFFF): literals up to a few bytes short, then
+                // cheap repeats (at most one byte each) until the size is hit
+                let exact_max = t.below(3) == 0;
+                let n = if exact_max { 80_000 } else { t.range(58_000, 63_500) };
+                let stop = if exact_max { 65_526 } else { 65_500 };
                 let mut r = crate::prng::Xoshiro::new(t.u64());
+                if exact_max {
+                    let _ = w.enc.encode(Sym::Lit(r.next() as u8));
+                    let _ = w.enc.encode(Sym::Match { dist: 1, len: 2 });
+                }
                 for _ in 0..n {
                     let _ = w.enc.encode(Sym::Lit(r.next() as u8));
-                    if w.enc.consumed() > 65_500 {
+                    if w.enc.consumed() > stop {
                         break;
+                    }
+                }
+                if exact_max {
+                    let _ = w.enc.encode(Sym::Match { dist: 1, len: 2 });
+                    let mut guard = 0;
+                    while w.enc.consumed() < 65_536 && guard < 200 {
+                        let _ = w.enc.encode(Sym::Rep { idx: 0, len: 2 });
+                        guard += 1;
                     }
                 }
             } else if target > 10_000 {
                 // long-run chunk: cheap symbols so that the packed size stays small
                 let b = t.byte();
                 let _ = w.enc.encode(Sym::Lit(b));
+                // bursts of literals in between (decided by a local generator so that the
+                // tape stays short): the literal contexts keep being used all along
+                let mut lr = crate::prng::Xoshiro::new(t.u64());
+                let bursts = t.below(3) != 0;
                 while (w.enc.model.out.len() as u64) < w_start(&w) + target {
                     let left = w_start(&w) + target - w.enc.model.out.len() as u64;
                     let len = left.min(273);
+                    if bursts && left > 8 && lr.next() % 16 == 0 {
+                        for _ in 0..1 + lr.next() % 3 {
+                            let _ = w.enc.encode(Sym::Lit(lr.next() as u8));
+                        }
+                        continue;
+                    }
                     if len < 2 {
                         let _ = w.enc.encode(Sym::Lit(b));
                     } else {
